@@ -207,6 +207,7 @@ func c07RunCancel(c *fw.Ctx, id string, prog, after, desc string, k int64, farDe
 		c.Count("late_ticks_other_threads", int(atomic.LoadInt64(&st.lateOther)))
 		if !ok {
 			c.Violate(fw.Violation{Key: "cancel:never-returned:" + desc0(desc), What: "EVAL did not return within 60 s after the context was cancelled from inside a tick", Detail: fw.GoroutineDump()})
+			c.Runaway()
 			return
 		}
 		if o.Panicked {
@@ -245,6 +246,23 @@ func desc0(d string) string {
 
 func c07RunDeadline(c *fw.Ctx, canary *hx.Canary, id string, prog, after, desc string, dl time.Duration, expectHandled bool) {
 	c.Case(id, fmt.Sprintf("deadline %v: %s", dl, prog), func() {
+		// The handler of the outermost try has the last fifth of the deadline to return its constant. On a loaded
+		// machine a scheduling delay can eat that window (60-140 ms) without the interpreter being at fault, so a missed
+		// handler is re-examined twice with a deadline four and sixteen times as long: an interpreter that really
+		// does not run the handler misses it at every deadline.
+		for attempt, d := 0, dl; ; attempt, d = attempt+1, d*4 {
+			if !c07DeadlineOnce(c, canary, prog, after, desc, d, expectHandled, attempt == 2) {
+				return
+			}
+			c.Count("handler_window_retries", 1)
+		}
+	})
+}
+
+// c07DeadlineOnce runs one deadline case; it returns true when only the handler's value was missing and the caller may
+// re-examine with a longer deadline (never when last is set: then the miss is reported).
+func c07DeadlineOnce(c *fw.Ctx, canary *hx.Canary, prog, after, desc string, dl time.Duration, expectHandled, last bool) (again bool) {
+	{
 		env := hx.NewStdEnv()
 		st := &c07State{stamps: map[int64][]int64{}, t0: time.Now()}
 		c07Install(env, st)
@@ -271,6 +289,7 @@ func c07RunDeadline(c *fw.Ctx, canary *hx.Canary, id string, prog, after, desc s
 		c.Count("deadline_programs", 1)
 		if !ok {
 			c.Violate(fw.Violation{Key: "deadline:never-returned:" + desc0(desc), What: fmt.Sprintf("EVAL did not return within 60 s after the %v deadline", dl), Detail: fw.GoroutineDump()})
+			c.Runaway()
 			return
 		}
 		if o.Panicked {
@@ -318,15 +337,23 @@ func c07RunDeadline(c *fw.Ctx, canary *hx.Canary, id string, prog, after, desc s
 		}
 		if expectHandled {
 			c.Count("handler_expected", 1)
-			if o.Err != nil || (o.Val != "ʞhandled" && o.Val != "ʞconst") {
-				c.Violate(fw.Violation{Key: "deadline:handler-did-not-run", What: fmt.Sprintf("a timeout in a try body under a deadline must be catchable and the constant handler's value returned; got value=%v err=%v", o.Val, o.Err)})
+			wantInner := strings.HasPrefix(desc, "inner-handler")
+			if wantInner {
+				c.Count("inner_handler_expected", 1)
+			}
+			if o.Err != nil || (!wantInner && o.Val != "ʞhandled" && o.Val != "ʞconst") || (wantInner && o.Val != "ʞinner") {
+				if !last {
+					return true
+				}
+				c.Violate(fw.Violation{Key: "deadline:handler-did-not-run", What: fmt.Sprintf("a timeout in a try body under a deadline must be catchable and the constant handler's value returned; got value=%v err=%v (also with deadlines 4 and 16 times as long; last %v)", o.Val, o.Err, dl)})
 				return
 			}
 			c.Count("handler_ran", 1)
 		} else if o.Err == nil {
 			c.Violate(fw.Violation{Key: "deadline:value-returned", What: fmt.Sprintf("EVAL returned the value %v although the program could not have finished", o.Val)})
 		}
-	})
+	}
+	return false
 }
 
 // c07RunBlocking: asynchronous cancel while the program is blocked in a builtin; wall-clock bounded.
@@ -336,6 +363,17 @@ func c07RunBlocking(c *fw.Ctx, canary *hx.Canary, id string, prog string, delay 
 		st := &c07State{}
 		c07Install(env, st)
 		hx.EvalText(context.Background(), c07Prelude("nil"), env)
+		if i := strings.Index(prog, "|||"); i >= 0 {
+			// an earlier evaluation on the same environment, under its own context that outlives the cancelled one
+			// (other users of the same futures keep waiting while this caller's context ends)
+			sctx, scancel := context.WithCancel(context.Background())
+			defer scancel()
+			if o := hx.EvalText(sctx, prog[:i], env); o.Err != nil || o.Panicked {
+				panic(fmt.Sprint("setup: ", o.Err, o.PanicMsg))
+			}
+			prog = strings.TrimSpace(prog[i+3:])
+			c.Count("blocking_programs_with_earlier_evaluation", 1)
+		}
 		ast, err := lisp.READ(prog, nil, env)
 		if err != nil {
 			panic(err)
@@ -352,6 +390,7 @@ func c07RunBlocking(c *fw.Ctx, canary *hx.Canary, id string, prog string, delay 
 		c.Count("blocking_programs", 1)
 		if !ok {
 			c.Violate(fw.Violation{Key: "blocking:never-returned", What: "EVAL still blocked 30 s after cancellation", Detail: fw.GoroutineDump()})
+			c.Runaway()
 			return
 		}
 		if o.Panicked {
@@ -445,6 +484,22 @@ func runC07(c *fw.Ctx) {
 			// a wrapped program may legitimately end with a handler's constant value: not judged for value/error
 			c07RunDeadlineFree(c, canary, fmt.Sprintf("deadline-%d", i), prog, desc, dl)
 		}
+		if i%4 == 0 {
+			// nested tries: the timeout is raised in the innermost body and it is the innermost handler that gets to
+			// run; its constant is the value of the whole (lexical nesting, through a call, with a finally in between)
+			var prog string
+			switch r.Intn(4) {
+			case 0:
+				prog = fmt.Sprintf("(try (try %s (catch e :inner)) (catch e2 :outer))", l.src)
+			case 1:
+				prog = fmt.Sprintf("(try (try (try %s (catch e :inner)) (catch e2 :middle)) (catch e3 :outer))", l.src)
+			case 2:
+				prog = fmt.Sprintf("(do (def inner-f (fn () (try %s (catch e :inner)))) (try (inner-f) (catch e2 :outer)))", l.src)
+			default:
+				prog = fmt.Sprintf("(try (try (try %s (catch e :inner)) (finally (tick!))) (catch e2 :outer))", l.src)
+			}
+			c07RunDeadline(c, canary, fmt.Sprintf("deadline-nested-%d", i), prog, "nil", "inner-handler>"+l.name, dl, true)
+		}
 	}
 	// (3b) retry loops whose handler re-enters the try in tail position, under a natural deadline
 	for i := 0; i < c.PerShard(c.Pick(16, 200)); i++ {
@@ -452,7 +507,12 @@ func runC07(c *fw.Ctx) {
 		c07RunDeadlineFree(c, canary, fmt.Sprintf("deadline-retry-%d", i), gen.Pick(r, []string{"(retry-loop 0)", "(retry-loop2 0)", "(try (retry-loop 0) (catch e :const))"}), "retry", dl)
 	}
 	// (4) blocking builtins under asynchronous cancel
-	blocking := []string{"(sleep 60000)", "@(future (sleep 60000))", "@(future (tail-loop 0))", "(try (sleep 60000) (catch e (sleep 60000)))", "(try @(future (sleep 60000)) (finally (sleep 60000)))", "(map (fn (x) (sleep 60000)) [1 2])", "(swap! (atom 0) (fn (n) (sleep 60000)))"}
+	blocking := []string{"(sleep 60000)", "@(future (sleep 60000))", "@(future (tail-loop 0))", "(try (sleep 60000) (catch e (sleep 60000)))", "(try @(future (sleep 60000)) (finally (sleep 60000)))", "(map (fn (x) (sleep 60000)) [1 2])", "(swap! (atom 0) (fn (n) (sleep 60000)))",
+		"(do (def slow (future (sleep 60000))) (def watcher (future @slow)) (sleep 5)) ||| @slow",
+		"(do (def slow (future (sleep 60000))) (def w1 (future @slow)) (def w2 (future (try @slow (catch e 1)))) (sleep 5)) ||| (try @slow (catch e (sleep 60000)))",
+		"(do (def slow (future (sleep 60000))) (sleep 1)) ||| (do (def w (future @slow)) (sleep 5) @slow)",
+		"(do (def a (atom 0)) (def busy (future (swap! a (fn (n) (do (sleep 60000) n))))) (sleep 5)) ||| (swap! a (fn (n) (do (sleep 60000) n)))",
+		"(do (def a (atom 0)) (def busy (future (swap! a (fn (n) (do (sleep 60000) n))))) (sleep 5)) ||| (do @a (reset! a 1) (str a) (sleep 60000))"}
 	for i := 0; i < c.PerShard(c.Pick(160, 4000)); i++ {
 		c07RunBlocking(c, canary, fmt.Sprintf("blocking-%d", i), blocking[r.Intn(len(blocking))], time.Duration(2+r.Intn(40))*time.Millisecond)
 	}
@@ -486,6 +546,7 @@ func c07RunDeadlineFree(c *fw.Ctx, canary *hx.Canary, id, prog, desc string, dl 
 		c.Count("wrapper."+desc0(desc), 1)
 		if !ok {
 			c.Violate(fw.Violation{Key: "deadline:never-returned:" + desc0(desc), What: fmt.Sprintf("EVAL did not return within 60 s after the %v deadline", dl), Detail: fw.GoroutineDump()})
+			c.Runaway()
 			return
 		}
 		if o.Panicked {
